@@ -1,8 +1,9 @@
 """C03 — non-malleable satisfactions cannot be altered by third parties (DESIGN 5/C03).
 Proof side: Properties/C03.v — has_sig bookkeeping of the satisfier model; TABLE-LEVEL uniqueness (U1, all
 fragments): the witness the non-malleable model returns is the only satisfaction-table entry of the third party
-that saw it (Proofs/NonMallUnique*.v, notes/C03-unique.md); script level partial (gap = Theorem B:
-"accepted => table entry"), which is what the search below still covers.
+that saw it (Proofs/NonMallUnique*.v); and the FULL statement at the level of the Script semantics (U3, C03_script_full:
+every accepted stack whose valid signatures are published ones equals the published witness; Proofs/NonMallScript*.v,
+notes/C03-unique.md).  The search below now cross-checks the model/implementation correspondence and the descriptor wrappers.
 Search side: for every non-malleable satisfaction the implementation returns for a sane
 wsh / sh(wsh) / sh / bare / tr-script-path descriptor with <= 6 script inputs, alternative witnesses over the adversary's
 alphabet (elements of the original witness, empty, 01, 32 zero bytes, junk, every preimage,
@@ -37,5 +38,5 @@ def run(rep, tier, seed, replay):
         "alternatives_accepted": s.get("c03_bad", 0), "cases": s.get("cases", 0),
         "samples": [{"summary": s}],
     })
-    rep.assumptions = ["uniqueness among TABLE entries is a theorem (C03_unique); 'every accepted witness is a table entry' (Theorem B) is not: the bounded search (budget per witness) covers that gap",
+    rep.assumptions = ["the uniqueness statement is a theorem about the Script semantics model (C03_script_full); the bounded search (budget per witness) checks the real implementation and the descriptor wrappers against it",
                        "pkh / wpkh / sh(wpkh) / tr key path have a single signature element and are not searched"]
